@@ -218,6 +218,51 @@ theorem second_instance_refused (cd : Codec β) (fix : Bool) (s : Sys β) (h : s
     step cd fix s .start = some { s with lastStart := .locked } := by
   simp [step, h]
 
+/-- "In use" lasts until `Exit` has finished writing: from the moment `Exit` starts (listeners closed) the daemon
+still holds the flock, so a second nsqd is refused … -/
+theorem second_instance_refused_during_exit (cd : Codec β) (fix : Bool) (s s' : Sys β)
+    (h : step cd fix s .exitBegin = some s') :
+    s'.exiting = true ∧ step cd fix s' .start = some { s' with lastStart := .locked } := by
+  simp only [step] at h
+  split at h; · simp at h
+  rename_i hc
+  simp at hc
+  simp at h; subst h
+  exact ⟨rfl, by simp [step, hc.1]⟩
+
+/-- … and the flock is released (`exitEnd`) only when Exit's own `PersistMetadata` is no longer queued or running
+(tie `exit_releases_dirlock_last`: `n.dl.Unlock()` is the last effect of `Exit`, after the persist, the topic
+flushes and the join of the background goroutines). -/
+theorem lock_released_only_after_exit_persist (cd : Codec β) (fix : Bool) (s s' : Sys β)
+    (h : step cd fix s .exitEnd = some s') :
+    s.alive = true ∧ s.exiting = true ∧ s.persist = none ∧ (∀ hd ∈ s.handlers, hd.kind ≠ .exit) ∧
+      s'.alive = false ∧ s'.fs = s.fs := by
+  simp only [step] at h
+  split at h
+  · rename_i hc
+    simp at hc
+    simp at h; subst h
+    exact ⟨hc.1.1.1, hc.1.1.2, hc.1.2, fun hd hm => by simpa using hc.2 hd hm, rfl, rfl⟩
+  · simp at h
+
+/-- non-vacuity: a graceful exit whose persist is parked after its snapshot (a second start is refused), then
+completes, the lock is released and the next start loads what Exit wrote -/
+def exitSchedule : List Step :=
+  [.start, .persist (.beginHandler 0), .persist .read, .persist (.openTmp 1), .persist .writeRest, .persist .sync,
+   .persist .rename, .persist .finish, .mem (.createTopic "t" false), .exitBegin,
+   .persist (.beginHandler 0), .persist .read, .persist .read, .start,          -- second instance while Exit is parked
+   .persist (.openTmp 2), .persist .writeRest, .persist .sync, .persist .rename, .persist .finish, .exitEnd, .start]
+
+def exitCheck (o : Option (Sys (Doc × Option Nat))) : Bool :=
+  match o with
+  | some s => s.alive && !s.exiting && s.mem == [⟨"t", false, false, false, []⟩] && s.lastStart == .ok
+  | none => false
+
+example : exitCheck (run toyCodec true Sys.init exitSchedule) = true := by decide
+example : ((run toyCodec true Sys.init (exitSchedule.take 14)).map (fun s => s.lastStart)) = some .locked := by decide
+-- the lock cannot be released while Exit's persist is still running
+example : run toyCodec true Sys.init (exitSchedule.take 14 ++ [.exitEnd]) = none := by decide
+
 /-! ### why the lock must be exclusive
 
 `file_is_latest_snapshot` rests on every `PersistMetadata` running under the nsqd *write* lock (in `Model.Meta` at most
